@@ -616,6 +616,41 @@ def r4_short_circuit(repo: Repo, rep):
         rep.violation(R, fi.site(), fi.fq, "a vanished graph yields zero instead of an error", "no grad_fn test", "no short-circuit")
 
 
+VALUE_TESTS = ("any", "all", "item", "sum", "max", "min", "mean", "norm", "allclose", "equal", "isclose", "count_nonzero", "nonzero", "is_nonzero",
+               "tolist", "prod", "abs", "isnan", "isfinite", "numel_nonzero", "amax", "amin", "std", "var")
+
+
+def r6_value_free_control(repo: Repo, rep):
+    R = rep.rule("R-C03-6", "the control flow of the operators depends on the graph structure, shapes and argument lists only - never on tensor values", floor=8,
+                 why="a branch taken when a derivative happens to be zero on the whole batch makes a row's result depend on the other rows of the batch "
+                     "(and returns zero for higher derivatives that do not vanish)")
+    m = repo.module(MOD)
+    for name, fi in sorted(m.functions.items()):
+        tests = []
+        for n in ast.walk(fi.node):
+            if isinstance(n, (ast.If, ast.While, ast.IfExp, ast.Assert)):
+                tests.append(n.test)
+            elif isinstance(n, ast.comprehension):
+                tests += n.ifs
+        rep.saw(fi)
+        bad = []
+        for t in tests:
+            for c in ast.walk(t):
+                if not isinstance(c, ast.Call):
+                    continue
+                ch = attr_chain(c.func) or ""
+                tail = ch.split(".")[-1] if ch else (c.func.attr if isinstance(c.func, ast.Attribute) else "")
+                tensor_fn = ch.startswith("torch.") and tail in VALUE_TESTS
+                tensor_meth = isinstance(c.func, ast.Attribute) and not ch.startswith("torch.") and tail in VALUE_TESTS and not c.args
+                builtin = ch in ("any", "all", "bool", "float", "int", "sum", "max", "min") and len(c.args) == 1 \
+                    and not isinstance(c.args[0], (ast.GeneratorExp, ast.ListComp, ast.List, ast.Tuple, ast.Constant)) \
+                    and not (isinstance(c.args[0], ast.Call) and attr_chain(c.args[0].func) in ("len",)) \
+                    and not any(isinstance(x, ast.Attribute) and x.attr == "shape" for x in ast.walk(c.args[0]))
+                if tensor_fn or tensor_meth or builtin:
+                    bad.append(dump(c)[:60])
+        rep.check(R, not bad, fi.site(), fi.fq, "conditions test grad_fn / shapes / argument lists only", f"value-dependent tests: {sorted(set(bad))[:3]}", f"value tests {sorted(set(bad))[:3]}")
+
+
 def r5_accumulators(repo: Repo, rep):
     R = rep.rule("R-C03-5", "accumulators that are filled in place inherit dtype and device from an input (or accumulation is out of place)", floor=3,
                  why="a float32 torch.zeros buffer filled in place silently down-casts float64 derivatives; a cpu buffer fails for cuda inputs")
@@ -647,6 +682,7 @@ def run(repo: Repo, rep):
     r3_tables(repo, rep)
     r4_short_circuit(repo, rep)
     r5_accumulators(repo, rep)
+    r6_value_free_control(repo, rep)
 
 
 _D = "src/torchphysics/utils/differentialoperators.py"
